@@ -255,6 +255,11 @@ func generate(family string, n int, seed uint64, out *bufio.Writer) {
 			p("hist hdrs 43a10126~a1044131,43a10127~a104413200%s", mode)
 			p("hist hdrs 43a10126~a1044131,43a1012700~a1044132%s", mode)
 			p("hist hdrs 43a10126~a1044131,40~a0,43a10138~a0,~,43a10126~%s", mode)
+			// a self-described tag in front of a bucket (the CBOR library would look through it)
+			p("hist hdrs 43a10126~a1044131,d9d9f743a10127~a0%s", mode)
+			p("hist hdrs 43a10126~a1044131,43a10127~d9d9f7a0%s", mode)
+			p("hist hdrs d9d9f743a10126~a0,43a10126~a0%s", mode)
+			p("hist hdrs c243a10126~a0,43a10126~d864a0%s", mode)
 		}
 		for i := 0; i < n; i++ {
 			kind := []string{"s1", "s1u", "sm", "sig", "csig", "ph", "uh", "hdrs"}[r.intn(8)]
